@@ -6,8 +6,8 @@ X.696 (08/2015) on the generator's type AST (OER-visible constraints per §8.2, 
 semantics.  C bytes != reference bytes is a failing input of C02 (symmetric encoder/decoder bugs, which
 round-trip tests cannot see, show up here); C decode of its own bytes != reference decode likewise.
 
-Known deviations of the unchanged tree are skipped *narrowly* (type feature x syntax) or classified
-by a second oracle run (`oer-unsorted` for F55) and counted in the evidence."""
+Known deviations of the unchanged tree are skipped *narrowly* (type feature x syntax) and counted in the
+evidence.  SET OF is compared at full strength: SET_OF_encode_oer sorts the element encodings (finding F55, repaired)."""
 import collections, os
 from .. import build, core, genmod, bundle, gfind, l2k
 from . import c01
@@ -225,28 +225,6 @@ def oer_shapes_module(rng, quick=True):
     add("ONull", T("NULL"), [None]); add("OBool", T("BOOLEAN"), [True, False])
     return {"name": "OERB", "tagdefault": "AUTOMATIC", "types": types}, vals
 
-# ------------------------------------------------------------------ classification of disagreements
-def classify_f55(ctx, dis):
-    """A disagreement on a type containing SET OF whose C bytes equal the reference encoding *without*
-    the canonical ordering of X.696 19 (= X.690 11.6) is finding F55.  Returns (remaining, n_f55)."""
-    from .. import sexp
-    rest = []; n55 = 0
-    by_mod = collections.OrderedDict()
-    for d in dis:
-        if d["stage"] == "encode" and d.get("_m") is not None and genmod.contains_kind(d["_t"], d["_env"], ("SET OF",)):
-            by_mod.setdefault(id(d["_m"]), (d["_m"], []))[1].append(d)
-        else: rest.append(d)
-    for _, (m, ds) in by_mod.items():
-        lines = ["l2mod " + genmod.module_sexp(m)]
-        for d in ds:
-            lines.append(f"@{d['type']} l2enc oer-unsorted {d['_pos']}")
-        rc, mo, err = ctx.run_lines(build.model_exe(), lines)
-        for d, o in zip(ds, mo[1:]):
-            # l2k keeps the first 400 characters of the C output
-            if d["c"].startswith("ok ") and o[:400] == d["c"] and (len(d["c"]) == 400 or len(o) == len(d["c"])): n55 += 1
-            else: rest.append(d)
-    return rest, n55
-
 def set_to_sequence(t):
     """SET has no OER codec in asn1c (F32): to keep the generated modules inside the comparable region
     every SET is rewritten as a SEQUENCE with the same components (values are dicts by identifier in both
@@ -282,14 +260,7 @@ def run_oer(ctx):
         nbroken = len(ctx.broken)
         st, dis = l2k.k_leg(ctx, "oer:" + m["name"], [(m, vals)], [("oer", "oer", "oer", "oer")], skip=sk, max_report=0)
         del ctx.broken[nbroken:]
-        # attach what the classifier needs
-        for d in dis:
-            d["_m"] = m; d["_env"] = env; d["_t"] = env[d["type"]]
-            if d["stage"] == "encode":
-                # recover the positional value from the op line: re-render via the named value
-                d["_pos"] = _pos_of(d, m, vals, env)
-        dis, n55 = classify_f55(ctx, dis)
-        if n55: skipped["F55"] += n55; st["oer_enc_diff"] -= n55; st["oer_enc_F55"] += n55
+        for d in dis: d["_t"] = env[d["type"]]
         # F121: the C *decoder* misreads the extension bit of SEQUENCEs with >= 8 optional root components
         # (the encoder is right and stays compared)
         keep = []
@@ -301,7 +272,7 @@ def run_oer(ctx):
         dis = keep
         ctx.cov["correspondence"]["oer:" + m["name"]] = dict(st)
         allst.update(st); alldis += dis
-    compared = allst["oer_enc_same"] + allst["oer_enc_diff"] + allst["oer_enc_F55"]
+    compared = allst["oer_enc_same"] + allst["oer_enc_diff"]
     allst["oer_enc_total"] = compared + allst["skipped_region"] + allst["unsupported_type"]
     allst["oer_enc_compared"] = compared
     ctx.cov["predicate"]["oer_bytes_eq_reference"] = dict(allst)
@@ -311,10 +282,3 @@ def run_oer(ctx):
                       {"module": d["module"], "type": d["type"], "op": d["op"], "c_output": d["c"], "reference": d["model"], "syntax": "oer", "stage": d["stage"]})
     ctx.log("C02 OER:", dict(allst), "skipped", dict(skipped))
     return allst, alldis
-
-def _pos_of(d, m, vals, env):
-    t = env[d["type"]]
-    want = d["op"].split(" ", 3)[3]
-    for v in vals.get(d["type"], []):
-        if genmod.val_sexp(t, v, env) == want: return genmod.val_pos_sexp(t, v, env)
-    return "-"
